@@ -457,3 +457,27 @@ pub fn late_gadget_volatile(free: usize, x_edges: bool) -> Vec<Universe> {
         })
         .collect()
 }
+
+/// chains `c0 -> c1 -> ... -> c(k-1) -> z:Output` of k = 2..=maxk inner jobs, every inner job
+/// Ephemeral or Output (all 2^k vectors), with one Always job `x` feeding any single position (or the
+/// sink): requirements and invalidations that have to travel along runs of Ephemerals of every
+/// length up to maxk, arising at either end or in the middle.
+pub fn chains(maxk: usize) -> Vec<Universe> {
+    let mut out = Vec::new();
+    for k in 2..=maxk {
+        for kv in 0..(1usize << k) {
+            for pos in 0..=k {
+                let mut jobs: Vec<JobDef> = (0..k).map(|i| JobDef::new(&format!("c{}", i), if kv & (1 << i) != 0 { Kind::O } else { Kind::E })).collect();
+                jobs.push(JobDef::new("z", Kind::O));
+                jobs.push(JobDef::new("x", Kind::A));
+                let mut edges: Vec<Edge> = (0..k).map(|i| Edge { up: i, down: i + 1, read: true, parts: vec![] }).collect();
+                edges.push(Edge { up: k + 1, down: pos, read: true, parts: vec![] });
+                out.push(Universe {
+                    label: format!("chain{}:{:0w$b}:x->{}", k, kv, pos, w = k),
+                    graphs: vec![Graph { jobs, edges }],
+                });
+            }
+        }
+    }
+    out
+}
